@@ -22,7 +22,7 @@ FAMS = ["single:conv@8", "single:dw@8", "single:maxpool@8", "single:avgpool@8", 
         "single:add@8", "single:sub@8", "single:mul@8", "single:add_bcast@8", "single:mul_scalar@8", "single:concat@u8", "diamond", "siamese", "single:logistic@8", "single:tanh@8", "single:lrelu@8", "single:hswish@8",
         "single:transpose@8", "single:reshape@8", "single:pad@8", "single:slice@8", "single:concat@8", "conv_chain",
         "single:conv", "single:dw", "single:fc", "single:maxpool", "single:avgpool", "single:pad_bc@8",
-        "single:quantize", "single:resize_nearest@8", "single:resize_bilinear@8", "single:tconv@8", "upscale_chain", "conv_chain_big", "weights_heavy", "single:mean@8", "single:transpose_c@8", "pow2_rescale", "single:transpose_c@8", "pow2_rescale", "single:prelu@8", "single:prelu@8"]
+        "single:quantize", "single:resize_nearest@8", "single:resize_bilinear@8", "single:tconv@8", "upscale_chain", "conv_chain_big", "weights_heavy", "single:mean@8", "single:transpose_c@8", "pow2_rescale", "single:transpose_c@8", "pow2_rescale", "single:prelu@8", "single:prelu@8", "mixed_exact", "mixed_exact", "mixed_exact"]
 if os.environ.get("VERIF_C01_FAMS"):        # development aid: restrict the generated part to some families
     FAMS = os.environ["VERIF_C01_FAMS"].split(",")
 
@@ -52,11 +52,12 @@ def build_case(r, art, rng, max_macs):
         raise refnet.Unsupported("too large for the interpreter budget")
     s = art["summary"]
     sg = s["subgraphs"][0]
-    if any(not (o["opcode"] == "CUSTOM" and o["custom_code"] == "ethos-u") for o in sg["operators"]):
-        raise refnet.Unsupported("CPU operators in the output")
+    mixed = any(not (o["opcode"] == "CUSTOM" and o["custom_code"] == "ethos-u") for o in sg["operators"])
     alloc = tflsum.offline_allocation(s)
     if alloc is None:
         raise refnet.Unsupported("no arena offsets")
+    if mixed:
+        return build_mixed_case(r, art, ref, rng, alloc)
     inputs = {}
     runs = []
     flash = art["npu"][0]["flash"]
@@ -125,6 +126,134 @@ def build_case(r, art, rng, max_macs):
     return flat, expect, tol, signed
 
 
+def draw_input(r, rng, t, index):
+    n = int(np.prod(t["shape"])) if t["shape"] else 1
+    lo, hi = refnet.QRANGE[t["type"]]
+    mode = rng.choice(["rand", "rand", "extreme", "narrow"])
+    fixed = (r["job"].get("inputs") or {}).get(str(index))
+    if fixed is not None:
+        return np.array((fixed * (n // len(fixed) + 1))[:n], dtype=np.int64)
+    if mode == "rand":
+        return np.array([rng.randint(lo, hi) for _ in range(n)], dtype=np.int64)
+    if mode == "extreme":
+        return np.array([rng.choice([lo, hi, lo + 1, hi - 1, 0]) for _ in range(n)], dtype=np.int64)
+    c = rng.randint(lo, hi)
+    return np.clip(np.array([c + rng.randint(-3, 3) for _ in range(n)], dtype=np.int64), lo, hi)
+
+
+class Mixed:
+    """an output model with CPU operators: its operators are run in file order over ONE simulated tensor arena - an
+    Ethos-U operator by the extracted interpreter (arena in, arena out), a CPU operator by the reference kernels /
+    stand-ins of tools/refnet.py on the bytes found at its operands' arena offsets.  Called from the worker pool;
+    returns what the interpreter returns for an NPU-only model: [1] + bytes of the network outputs, or [0]."""
+
+    def __init__(self, r, art, alloc, inputs, hdr, outs_idx):
+        self.r, self.art, self.alloc, self.inputs, self.hdr, self.outs_idx = r, art, alloc, inputs, hdr, outs_idx
+        self.sg = art["summary"]["subgraphs"][0]
+        self.size = sum(len(n["words"]) for n in art["npu"]) + 1000 * len(self.sg["operators"])
+
+    def __len__(self):
+        return self.size
+
+    def nbytes(self, ti):
+        t = self.sg["tensors"][ti]
+        n = 1
+        for d in t["shape"]:
+            n *= d
+        return n * ELEM.get(t["type"], 4), ELEM.get(t["type"], 4), t["type"] != "uint8" and t["type"] != "bool"
+
+    def put(self, arena, ti, arr):
+        off = self.alloc["offsets"][ti]
+        nb, es, _ = self.nbytes(ti)
+        if off < 0:
+            raise refnet.Unsupported("tensor without arena offset")
+        k = off
+        for v in np.asarray(arr, dtype=np.int64).reshape(-1):
+            u = int(v) % (1 << (8 * es))
+            for b in range(es):
+                arena[k] = (u >> (8 * b)) & 255
+                k += 1
+
+    def get(self, arena, ti):
+        off = self.alloc["offsets"][ti]
+        nb, es, signed = self.nbytes(ti)
+        if off < 0:
+            raise refnet.Unsupported("tensor without arena offset")
+        vals = []
+        for k in range(off, off + nb, es):
+            u = sum(arena[k + b] << (8 * b) for b in range(es))
+            vals.append(u - (1 << (8 * es)) if signed and u >= (1 << (8 * es - 1)) else u)
+        return np.array(vals, dtype=np.int64).reshape(self.sg["tensors"][ti]["shape"])
+
+    def __call__(self):
+        try:
+            return self.execute()
+        except refnet.Unsupported:
+            return [0]
+
+    def execute(self):
+        oref = refnet.Ref(self.art["path"])
+        tens = self.sg["tensors"]
+        size = 0
+        for ti, t in enumerate(tens):
+            off = self.alloc["offsets"][ti] if ti < len(self.alloc["offsets"]) else -1
+            if off >= 0 and not t["data_len"]:
+                size = max(size, off + self.nbytes(ti)[0])
+        arena = [0] * size
+        for ti, arr in self.inputs.items():
+            self.put(arena, ti, arr)
+        npu = iter([n for n in self.art["npu"] if n["sg"] == 0])
+        for op in self.sg["operators"]:
+            if op["opcode"] == "CUSTOM" and op.get("custom_code") == "ethos-u":
+                n = next(npu)
+                if n["words"] is None:
+                    return [0]
+                flash = list(n["flash"])
+                flat = self.hdr + [2, 0, 0, len(flash)] + flash + [1, 0, size] + arena + [1, 1, 0, size, 1, len(n["words"])] + n["words"]
+                o = models.run("exec", [flat], exe_name="npuExec", timeout=7200)[0]
+                if o[0] != 1:
+                    return [0]
+                arena = list(o[1:1 + size])
+            else:
+                val = {}
+                for ti in op["inputs"]:
+                    if ti >= 0 and not tens[ti]["data_len"]:
+                        val[ti] = self.get(arena, ti)
+                oref.step(op, val)
+                for ti in op["outputs"]:
+                    self.put(arena, ti, val[ti])
+        out = [1]
+        for ti in self.outs_idx:
+            off = self.alloc["offsets"][ti]
+            out += arena[off: off + self.nbytes(ti)[0]]
+        return out
+
+
+def build_mixed_case(r, art, ref, rng, alloc):
+    sg = art["summary"]["subgraphs"][0]
+    inputs, feed = {}, {}
+    for k, (si, oi) in enumerate(zip(ref.sg["inputs"], sg["inputs"])):
+        t = ref.tens(si)
+        if t["type"] not in ("int8", "uint8", "int16"):
+            raise refnet.Unsupported("input type %s" % t["type"])
+        data = draw_input(r, rng, t, k).reshape(t["shape"])
+        inputs[si], feed[oi] = data, data
+    want = ref.run(inputs)
+    expect, layout = [], []
+    for si in ref.sg["outputs"]:
+        v = want[si].reshape(-1)
+        ty = ref.tens(si)["type"]
+        if ty not in ELEM or ty == "int32":
+            raise refnet.Unsupported("output type %s" % ty)
+        expect += [int(x) for x in v]
+        layout.append((len(v), ELEM[ty], ty != "uint8"))
+    from ethosu.vela.architecture_features import Accelerator, create_default_arch
+    arch = create_default_arch(Accelerator(artefacts.job_accel(r["job"])))
+    hdr = [int(arch.ncores), int(arch.ofm_ublock.depth), int(arch.ifm_ublock.depth), int(arch.shram_lut_address)]
+    tol = 1 if getattr(ref, "padded_avg", False) or getattr(ref, "requant_concat", False) or getattr(ref, "has_table_op", False) else 0
+    return Mixed(r, art, alloc, feed, hdr, list(sg["outputs"])), expect, tol, layout
+
+
 def decode_outputs(data, layout):
     """bytes of the output tensors -> element values"""
     vals, pos = [], 0
@@ -170,7 +299,8 @@ def run(tier):
         import concurrent.futures
         order = sorted(range(len(cases)), key=lambda i: -len(cases[i]))
         with concurrent.futures.ThreadPoolExecutor(max_workers=vlib.NCPU) as ex:
-            done = list(ex.map(lambda i: models.run("exec", [cases[i]], exe_name="npuExec", timeout=7200)[0], order))
+            done = list(ex.map(lambda i: cases[i]() if callable(cases[i]) else
+                               models.run("exec", [cases[i]], exe_name="npuExec", timeout=7200)[0], order))
         outs = [None] * len(cases)
         for i, o in zip(order, done):
             outs[i] = o
